@@ -190,6 +190,8 @@ theorem eraseItems_shIs (k : Nat) : ∀ l : List RDictItem, eraseItems (shIs k l
 end
 
 
+attribute [simp] erase_shE eraseList_shL eraseOpt_shO eraseComps_shCs eraseParams_shPs eraseKws_shKs eraseItems_shIs
+
 /-! ## span tables related by a shift -/
 
 /-- the spans of the `N` tokens of the input are moved by `k` (entries outside `1..N` are never looked at) -/
@@ -203,6 +205,17 @@ theorem TabRel.snd {k N : Nat} {σ σ' : SpanTab} (h : TabRel k N σ σ') {i : N
 def shParams (k : Nat) (ps : RParams) : RParams :=
   { posonly := shPs k ps.posonly, args := shPs k ps.args, vararg := ps.vararg.map fun p => (shRg k p.1, p.2),
     kwonly := shPs k ps.kwonly, kwarg := ps.kwarg.map fun p => (shRg k p.1, p.2) }
+
+@[simp] theorem shParams_empty (k : Nat) : shParams k {} = {} := rfl
+@[simp] theorem shParams_posonly (k : Nat) (ps : RParams) : (shParams k ps).posonly = shPs k ps.posonly := rfl
+@[simp] theorem shParams_args (k : Nat) (ps : RParams) : (shParams k ps).args = shPs k ps.args := rfl
+@[simp] theorem shParams_vararg (k : Nat) (ps : RParams) :
+    (shParams k ps).vararg = ps.vararg.map fun p => (shRg k p.1, p.2) := rfl
+@[simp] theorem shParams_kwonly (k : Nat) (ps : RParams) : (shParams k ps).kwonly = shPs k ps.kwonly := rfl
+@[simp] theorem shParams_kwarg (k : Nat) (ps : RParams) :
+    (shParams k ps).kwarg = ps.kwarg.map fun p => (shRg k p.1, p.2) := rfl
+@[simp] theorem erase_shParams (k : Nat) (ps : RParams) : (shParams k ps).erase = ps.erase := by
+  simp [RParams.erase, shParams, Function.comp_def]
 
 def shPiece (k : Nat) : (List Nat ⊕ RExpr) → (List Nat ⊕ RExpr)
   | .inl s => .inl s
@@ -386,6 +399,37 @@ theorem sliceRest_unfold (σ : SpanTab) (f st : Nat) (lower : Option RExpr) (r :
   rw [parseRSliceRest.eq_def]
   rfl
 
+open Lean Elab Tactic Meta in
+/-- `split` at the first hypothesis `(match … with …) = v` of the context (the value of a `let` of the function, once
+    `simp (zetaDelta := true)` has put it into the case hypothesis that mentions it) -/
+elab "split_match_hyp" : tactic => do
+  let g ← getMainGoal
+  g.withContext do
+    for ldecl in ← getLCtx do
+      if ldecl.isImplementationDetail then continue
+      let ty ← instantiateMVars ldecl.type
+      if ty.isAppOfArity ``Eq 3 then
+        let lhs := ty.getArg! 1
+        if (← isMatcherApp lhs) then
+          if let some gs ← splitLocalDecl? g ldecl.fvarId then
+            replaceMainGoal gs
+            return
+    throwError "no hypothesis to split"
+
+open Lean Elab Tactic Meta in
+/-- destruct the first hypothesis that is a conjunction -/
+elab "and_hyp" : tactic => do
+  let g ← getMainGoal
+  g.withContext do
+    for ldecl in ← getLCtx do
+      if ldecl.isImplementationDetail then continue
+      let ty ← instantiateMVars ldecl.type
+      if ty.isAppOfArity ``And 2 then
+        let r ← g.cases ldecl.fvarId
+        replaceMainGoal (r.toList.map (·.mvarId))
+        return
+    throwError "no conjunction"
+
 /-- split a nest of conjunctions into its parts -/
 syntax "hsplit " ident : tactic
 macro_rules
@@ -394,24 +438,34 @@ macro_rules
 
 macro "hfin" : tactic => `(tactic| (
   first
-  | (simp_all [shE, shParams, L, R, P]; done)
-  | (simp_all [shE, shParams, L, R, P]; grind [TabRel, shRg])
-  | grind [shE, shL, shO, shCs, shPs, shKs, shIs, shParams, L, R, P, TabRel, shRg]))
+  | (simp_all [shE, L, R, P]; done)
+  | (simp_all [shE, L, R, P]; grind [TabRel, shRg])
+  | grind [shE, shL, shO, shCs, shPs, shKs, shIs, L, R, P, TabRel, shRg, shParams_empty, shParams_posonly, shParams_args,
+      shParams_vararg, shParams_kwonly, shParams_kwarg, erase_shParams, eraseParams_shPs, shPs_append]))
 
 open Lean in
-/-- `hstep ih hrel fn [fields]`: in every case left by `fun_cases`: instantiate the named induction hypotheses (fields of
-    `ShiftAt`) at the calls that were made (three rounds, so that what one call consumed is known when the next one's
-    precondition is checked), unfold the function on the `σ'` side and close the case -/
-macro "hstep" ih:ident hrel:ident fn:ident "[" fs:ident,* "]" : tactic => do
+/-- `hcore ih hrel fn [fields]`: the calls that were made are hypotheses `call = some v` of the context (left there by
+    `fun_cases`, or by splitting the unfolded hypothesis `h`), `h` is the equation between the value the function built
+    and the answer: instantiate the named induction hypotheses (fields of `ShiftAt`) at those calls (three rounds, so that
+    what one call consumed is known when the next one's precondition is checked), unfold the function on the `σ'` side
+    and close the case -/
+macro "hcore" ih:ident hrel:ident h:ident fn:ident "[" fs:ident,* "]" : tactic => do
   let mut round : Array (TSyntax `tactic) := #[]
   for f in fs.getElems do
     let p := mkIdent (`PV.C09.ShiftAt ++ f.getId)
     round := round.push (← `(tactic| fwd ($p:ident ($ih _ rfl) _ _ _ $hrel)))
   let eqd := mkIdent (fn.getId ++ `eq_def)
   `(tactic| (
-    all_goals intro h
     all_goals try simp (config := { zetaDelta := true }) only [] at *
-    all_goals try simp only [Option.some.injEq, Prod.mk.injEq, reduceCtorEq] at h
+    all_goals try (repeat' split_match_hyp)
+    all_goals try simp only [Option.some.injEq, Prod.mk.injEq, List.cons.injEq, Tok.op.injEq, Tok.kw.injEq, reduceCtorEq,
+      false_and, and_false, true_and, and_true, ↓reduceIte] at *
+    all_goals try (repeat' and_hyp)
+    all_goals try subst_vars
+    all_goals try simp only [Option.some.injEq, Prod.mk.injEq, List.cons.injEq, Tok.op.injEq, Tok.kw.injEq, reduceCtorEq,
+      false_and, and_false, true_and, and_true, ↓reduceIte] at *
+    all_goals try (repeat' and_hyp)
+    all_goals try subst_vars
     all_goals try simp only [List.length_cons] at *
     all_goals (
       fwd @PV.C09.binOpAt_len; fwd @PV.C09.unaryOpAt_len; fwd @PV.C09.cmpOpAt_len
@@ -421,7 +475,7 @@ macro "hstep" ih:ident hrel:ident fn:ident "[" fs:ident,* "]" : tactic => do
       try simp only [List.length_cons] at *
       $[$round]*
       try simp only [List.length_cons] at *)
-    all_goals (try hsplit h)
+    all_goals try (repeat' and_hyp)
     all_goals (try subst_vars)
     all_goals try simp only [List.length_cons] at *
     all_goals (
